@@ -1,8 +1,9 @@
 (* C16 property theorems ONLY (each closed by an already proved lemma) + assumptions. *)
 From Coq Require Import List ZArith Reals Lra Lia.
 From Coquelicot Require Import Coquelicot.
-From RV Require Import Common.Num Common.RealNum C02.Model C16.Dual C16.GravityVar C16.GravityVarProofs
-  C16.GravityVar2Proofs Gen.Derivs C16.DerivProofs.
+From RV Require Import Common.Num Common.RealNum C02.Model C02.Spec C03.Model C16.Dual C16.GravityVar C16.GravityVarProofs
+  C16.GravityVar2Proofs Gen.Derivs C16.DerivProofs C16.Deriv2Common C16.Deriv2All C16.KeplerVar C16.Link
+  C16.Rescale C16.RescaleProofs.
 Import ListNotations.
 Open Scope R_scope.
 
@@ -154,6 +155,82 @@ Theorem C16_pal_constraints_from_residuals : forall (k h lambda p q : R),
   pal_c2 RNum k h (sin (lambda + p)) (cos (lambda + p)) p = 0.
 Proof. exact pal_constraints_from_residuals. Qed.
 Print Assumptions C16_pal_constraints_from_residuals.
+
+(* ---- second-order constructors: every function in d2_proved (generated list, printed in the evidence) is the e1e2 part
+   of the generated from_orbit / from_pal run at nested duals; d2_spec spells the statement per function
+   (orb_spec2: bound orbit; pal_spec2: solved Pal-Kepler relations, (p,q) moved by pal_implicit / pal_implicit2) *)
+Theorem C16_second_order_constructors : List.Forall d2_spec d2_proved /\ (length d2_proved + length d2_unproved = 53)%nat.
+Proof. split; [exact d2_all_proved | exact d2_count]. Qed.
+Print Assumptions C16_second_order_constructors.
+
+Theorem C16_pal_implicit2 : forall (x y : pparam) (k h p q slp clp : R),
+  q = k * clp + h * slp -> 1 - q <> 0 ->
+  forall dp12 dq12 : R,
+  (dd_mix (nsub DDR (dd p (dP1 q slp clp x) (dP1 q slp clp y) dp12)
+             (P_rhs DDR (kDD x y k) (hDD x y h) (sinDD slp clp (U1 q slp clp x) (U1 q slp clp y) dp12)
+                                               (cosDD slp clp (U1 q slp clp x) (U1 q slp clp y) dp12))) = 0 /\
+   dd_mix (nsub DDR (dd q (dQ1 p q slp clp x) (dQ1 p q slp clp y) dq12)
+             (Q_rhs DDR (kDD x y k) (hDD x y h) (sinDD slp clp (U1 q slp clp x) (U1 q slp clp y) dp12)
+                                               (cosDD slp clp (U1 q slp clp x) (U1 q slp clp y) dp12))) = 0)
+  <-> (dp12 = dP12 x y k h q slp clp /\
+       dq12 = dd_mix (Q_rhs DDR (kDD x y k) (hDD x y h) (sinDD slp clp (U1 q slp clp x) (U1 q slp clp y) dp12)
+                                               (cosDD slp clp (U1 q slp clp x) (U1 q slp clp y) dp12))).
+Proof. exact pal_implicit2. Qed.
+Print Assumptions C16_pal_implicit2.
+
+(* ---- second-order test-particle loop *)
+Theorem C16_var2_testparticle_is_mixed_dual_part :
+  forall (G : R) (ps : list (Part R)) (ax ay az bx by_ bz wx wy wz : R) (i : nat),
+  (forall j, (j < length ps)%nat -> j <> i -> sep2 (nth_d (Z0P RNum) ps i) (nth_d (Z0P RNum) ps j) <> 0) ->
+  let pi := nth_d (Z0P RNum) ps i in
+  mix3 (acc_on DDR (GDD G) 0 (cclifts ps) (dd (px pi) ax bx wx, dd (py pi) ay by_ wy, dd (pz pi) az bz wz) i)
+  = grav_var2_tp RNum G ps (wx, wy, wz) (ax, ay, az) (bx, by_, bz) i.
+Proof. exact var2_testparticle_is_mixed_dual_part. Qed.
+Print Assumptions C16_var2_testparticle_is_mixed_dual_part.
+
+(* ---- the program differentiated by the test-particle theorems is C02's specified force on particle i *)
+Theorem C16_acc_on_is_c02_spec : forall (G : R) (ign : nat) (tp : bool) (ps : list (Part R)) (i : nat),
+  (ign <= 2)%nat ->
+  let pi := nth_d (Z0P RNum) ps i in
+  acc_on RNum G ign ps (px pi, py pi, pz pi) i = acc_spec G 0 0 0 0 0%nat 0%nat 0%nat ign (length ps) tp ps i.
+Proof. exact acc_on_is_spec. Qed.
+Print Assumptions C16_acc_on_is_c02_spec.
+
+(* ---- WHFast: the variational block of the Kepler solver (C03 kepler_variation, bit-exact with C) is the tangent map of
+   the f-g step given the solved X.  ASSUMED: the Stiefel chain rule dG_n = G_(n-1) dX + (n G_(n+2) - X G_(n+1))/2 dbeta;
+   dX is forced by the linearised Kepler equation (C16_kepler_dX_unique). *)
+Theorem C16_kepler_tangent : forall (p1 dp : @S6 R) (M dt X G0 G1 G2 G3 G4 G5 : R),
+  let r0 := k_r0 RNum p1 in let eta0 := k_eta0 RNum p1 in let zeta0 := k_zeta0 RNum p1 M in let beta := k_beta RNum p1 M in
+  let ri := 1 / (r0 + (eta0 * G1 + zeta0 * G2)) in
+  r0 <> 0 -> r0 + (eta0 * G1 + zeta0 * G2) <> 0 ->
+  forall hang, stiefel_Gs RNum beta X = ((G0, G1, G2, G3, G4, G5), hang) ->
+  let dX := k_dX p1 dp M X G1 G2 G3 G4 G5 in
+  fst (kepler_variation RNum p1 dp M dt beta X ri (fg_coeffs RNum M dt (1 / r0) ri G1 G2 G3)) =
+  dp6 (kstep DR (lift6 p1 dp) (dconst RNum M) (dconst RNum dt)
+         (GD p1 dp M G1 G0 (1 / 2 * (G3 - X * G2)) dX) (GD p1 dp M G2 G1 (1 / 2 * (2 * G4 - X * G3)) dX)
+         (GD p1 dp M G3 G2 (1 / 2 * (3 * G5 - X * G4)) dX)).
+Proof. intros. apply (kepler_tangent p1 dp M dt X G0 G1 G2 G3 G4 G5) with (hang := hang); assumption. Qed.
+Print Assumptions C16_kepler_tangent.
+
+Theorem C16_kepler_dX_unique : forall (p1 dp : @S6 R) (M dt X G1 G2 G3 G4 G5 : R),
+  k_r0 RNum p1 <> 0 -> k_r0 RNum p1 + (k_eta0 RNum p1 * G1 + k_zeta0 RNum p1 M * G2) <> 0 ->
+  forall dX : R,
+  snd (k_res DR (lift6 p1 dp) (dconst RNum M) (dconst RNum dt) (X, dX)
+         (GD p1 dp M G2 G1 (1 / 2 * (2 * G4 - X * G3)) dX) (GD p1 dp M G3 G2 (1 / 2 * (3 * G5 - X * G4)) dX)) = 0
+  <-> dX = k_dX p1 dp M X G1 G2 G3 G4 G5.
+Proof. intros. apply (kepler_dX_unique p1 dp M dt X G1 G2 G3 G4 G5); assumption. Qed.
+Print Assumptions C16_kepler_dX_unique.
+
+(* ---- rescaling changes only the recorded magnitude (reb_simulation_rescale_var, branch for branch) *)
+Theorem C16_rescale_only_magnitude : forall big : R, 0 < big -> forall (cs : list VCfg) (fl : Flags),
+  let '(fl', cs') := rescale_all RNum ln big fl cs in
+  Forall2 (fun c c' =>
+     represented c' = represented c /\ vc_order c' = vc_order c /\
+     (c' = c \/ (vc_order c = 1%nat /\ exists s, big < s /\ vc_lres c' = vc_lres c + ln s /\ vc_ps c' = map (div6 RNum s) (vc_ps c)))) cs cs'
+  /\ (integ fl = 1%nat -> safe_mode fl = false -> cs' <> cs -> recalc fl' = true)
+  /\ integ fl' = integ fl /\ safe_mode fl' = safe_mode fl /\ (recalc fl = true -> recalc fl' = true).
+Proof. exact rescale_only_magnitude. Qed.
+Print Assumptions C16_rescale_only_magnitude.
 
 (* Non-vacuity: a star and two planets at distinct positions; a bound orbit meeting the constructor hypotheses *)
 Example C16_hypotheses_inhabited :
